@@ -21,6 +21,17 @@ METHS = ["apply", "map", "starmap", "doublestarmap"]
 POOL_NAME = "po%ol {0} 100%s (x) [y]"
 
 
+class _Returned:
+    """An awaitable handed back by a plain (non-coroutine) callback."""
+
+    def __init__(self, run, kind, tid):
+        self.run, self.kind, self.tid = run, kind, tid
+
+    def __await__(self):
+        self.run.events.append(f"ret-awaited:{self.kind}:{self.tid}")
+        return iter(())
+
+
 class HarnessError(TypeError, ValueError, LookupError, ArithmeticError, AssertionError):
     """What harness-owned user code raises.  It is an instance of several builtin exception types
     at once, so library code that treats one of them specially (`except TypeError: retry` ...)
@@ -410,6 +421,10 @@ class PoolRun:
                 self.events.append(f"cbe:{kind}:{tid}:{int(raises)}")
                 if raises:
                     raise HarnessError(tid, kind)
+                if tid % 2:
+                    # what a plain callback returns is its own business: the pool must not await it
+                    # (an awaitable returned here that were awaited would show as an extra event)
+                    return _Returned(self, kind, tid)
             return cb
         slow = spec[1] == "1"
 
